@@ -47,6 +47,8 @@ def _one(ctx, i, rep=None):
     r = ctx.rng('g', i)
     gen_ = G(r, 0.0, pskip=0.15, pws=0.0, pcomment=0.2)   # no ws= modifiers: keeps Arpeggio's eolterm/ws restore finding (C01) out
     gen_.lit_style = 'rich'
+    if i % 4 == 1:
+        gen_.preuse = 0.2
     g = gen_.grammar()
     variant = ctx.rng('litspelling', i).choice([0, 0, 0, 0, 1, 2, 3])
     text = P.pr_variant(g, variant)
